@@ -1124,7 +1124,7 @@ func runCertificates(c *core.Ctx) []genCert {
 			c.NativeCheck(1)
 		}
 	}
-	driver.Imports += "\n" + certDefs.String()
+	driver.Prelude = certDefs.String()
 	var usable []genCert
 	for _, g := range out {
 		if !g.known {
